@@ -1,9 +1,9 @@
 CONSTANTS
   MaxClauses = 2500
   MaxUnused = 2
-INIT InitPairsAll
+INIT InitPairsSome
 NEXT Next
 INVARIANT RoundTrip
 INVARIANT SizeIsLength
-POSTCONDITION ExportPairsAll
+POSTCONDITION ExportPairsSome
 CHECK_DEADLOCK FALSE
